@@ -173,6 +173,23 @@ class Facts:
     def fns(self, q):
         return self.by_q.get(q, [])
 
+    # normal form (helpers put back, see inline.normalize_fn); cached per function object
+    def normal(self, fn):
+        from .inline import normalize_fn
+        if fn is None or fn.get("body") is None:
+            return fn
+        cache = self.__dict__.setdefault("_normal", {})
+        key = id(fn)
+        if key not in cache:
+            cache[key] = normalize_fn(fn, self)
+        return cache[key]
+
+    def nfn(self, q, nparams=None, required=True):
+        return self.normal(self.fn(q, nparams, required))
+
+    def nfns(self, q):
+        return [self.normal(f) for f in self.fns(q)]
+
     def record(self, q, required=True):
         r = self.records.get(q)
         if r is None and required:
